@@ -146,6 +146,44 @@ def pairOk (O P : CSpec) : Bool :=
   O.instrs.all (fun u => !u.comm || u.inp.length == 2)
 
 /-! ### wire format (glue) -/
+/-- `x["disasm"].find(s) != -1` for the substrings the checker uses -/
+def hasSubstr (s op : String) : Bool := (op.splitOn s).length > 1
+
+def stoInstrs (S : CSpec) : List CInstr := S.instrs.filter fun u => hasSubstr "SSTORE" u.op || hasSubstr "SLOAD" u.op
+def memInstrs (S : CSpec) : List CInstr := S.instrs.filter fun u => hasSubstr "MSTORE" u.op || hasSubstr "MLOAD" u.op
+
+/-- `search_val_in_userdef`: the first record of `cands` with the same opcode whose operands all compare equal
+    (`none` = a comparison raises) -/
+def searchVal (O P : CSpec) (ins : CInstr) : List CInstr → Option (Option CInstr)
+  | [] => some none
+  | c :: cs =>
+    if ins.op == c.op then
+      match cmpArgs O P (fuelC O P) ins.inp c.inp with
+      | none => none
+      | some true => some (some c)
+      | some false => searchVal O P ins cs
+    else searchVal O P ins cs
+
+/-- the matching loop of `compare_storage_userdef_ins` after the repair: every record of the original specification
+    finds a not yet used record of the optimized one -/
+def matchAll (O P : CSpec) : List CInstr → List CInstr → Option Bool
+  | [], _ => some true
+  | ins :: rest, remaining =>
+    match searchVal O P ins remaining with
+    | none => none
+    | some none => some false
+    | some (some c) => matchAll O P rest (remaining.filter fun x => x.id != c.id)
+
+/-- `compare_storage_userdef_ins` -/
+def cmpStores (O P : CSpec) : Option Bool :=
+  if (stoInstrs O).length != (stoInstrs P).length then some false
+  else if (memInstrs O).length != (memInstrs P).length then some false
+  else
+    match matchAll O P (stoInstrs O) (stoInstrs P) with
+    | none => none
+    | some false => some false
+    | some true => matchAll O P (memInstrs O) (memInstrs P)
+
 def parseCInstr (r : String) : Option CInstr :=
   match r.splitOn "~" with
   | [id, op, value, inp, out, comm] =>
@@ -165,14 +203,14 @@ def showOB : Option Bool → String
   | some true => "true"
   | some false => "false"
 
-/-- CMP: `<pairOk> <compare_target_stack> <compare_variables for each requested pair…>` -/
+/-- CMP: `<pairOk> <compare_target_stack> <compare_storage_userdef_ins> <compare_variables for each requested pair…>` -/
 def handleCmp (so sp pairs : String) : String :=
   match parseCSpec so, parseCSpec sp with
   | some O, some P =>
     let ps := (splitNE pairs ";").map fun p => match p.splitOn "," with
       | [x, y] => (parseAtom x, parseAtom y)
       | _ => (Atom.const 0, Atom.const 0)
-    s!"{if pairOk O P then 1 else 0} {showOB (cmpTarget O P)} " ++ " ".intercalate (ps.map fun (x, y) => showOB (cmpVar O P (fuelC O P) x y))
+    s!"{if pairOk O P then 1 else 0} {showOB (cmpTarget O P)} {showOB (cmpStores O P)} " ++ " ".intercalate (ps.map fun (x, y) => showOB (cmpVar O P (fuelC O P) x y))
   | _, _ => "error:parse"
 
 end GasolVerif.Cmp
